@@ -257,6 +257,10 @@ func c01Alphabet(s *sessSys) []sessReq {
 			}
 			for _, x := range s.m.live(c) {
 				add("del", sessReq{sReq: sReq{Kind: kDel, Conn: c}, Sess: x.Idx})
+				if p1 := x.pdr(1); p1 != nil && x.pdr(8) == nil && !s.in.cfg.P4 {
+					// a session one of whose rules was added by a modification that asked the UP to choose the tunnel endpoint
+					add("mod-create-choose-pdr", sessReq{sReq: sReq{Kind: kMod, Conn: c, CreatePDR: []sPDR{{ID: 8, Prec: 90, Src: ie.SrcInterfaceAccess, FTEID: &sFTEID{Choose: true}, UEIP: p1.UEIP, Decap: true, FAR: 1, QERs: p1.QERs}}}, Sess: x.Idx})
+				}
 			}
 			add("release", sessReq{sReq: sReq{Kind: kRel, Conn: c}})
 		}
@@ -400,6 +404,11 @@ func (r *c01Runner) fire(label string, b []byte, cs c01Case) {
 		r.res.finding("c01:multi-response:"+label, fmt.Sprintf("%d datagrams written for one injected datagram", len(out)), cs)
 	}
 	r.res.outcome(fmt.Sprintf("answered=%d", len(out)))
+	if l := vLeakedLock(r.sys.in.u); l != "" {
+		r.res.finding("c01:lock-held-after:"+label+":"+l, l+" is still held after the handler returned: the next request that needs it blocks the receive loop for good", cs)
+		r.rebuild()
+		return
+	}
 	for c := range r.sys.in.conns {
 		if !r.probe(c) {
 			r.res.finding(fmt.Sprintf("c01:dead-after:%s:conn%d", label, c), "a valid Heartbeat Request after the datagram was not answered on association "+fmt.Sprint(c), cs)
